@@ -1024,10 +1024,14 @@ def gen_m_call(g, gs, cfg, mid, force_method=None):
     return rec
 
 
-def generate(run_seed):
+def generate(run_seed, deep=False):
     st = Streams(run_seed)
     g, sc = st["gen"], st["sched"]
     cfg = gen_config(g)
+    cfg["deep"] = bool(deep) and st["deep"].random() < 0.5
+    if cfg["deep"]:      # thorough tier: long histories on more models
+        cfg["length"] = st["deep"].randint(60, 160)
+        cfg["max_models"] = st["deep"].randint(3, 8)
     gs = GS()
     ops = []
     nclients = cfg["clients"]
@@ -1036,7 +1040,7 @@ def generate(run_seed):
     wt = cfg["weights"]
     kinds = [k for k in wt if wt[k] > 0]
     guard = 0
-    while len(ops) < cfg["length"] and guard < 400:
+    while len(ops) < cfg["length"] and guard < 1200:
         guard += 1
         c = sc.randrange(nclients)
         # obligations are discharged late, with preference
